@@ -19,9 +19,9 @@ import (
 	"github.com/lavanet/lava/v5/protocol/relaycore"
 	"github.com/lavanet/lava/v5/utils"
 	specutils "github.com/lavanet/lava/v5/utils/keeper"
-	"github.com/lavanet/lava/v5/zz_verif/simrt"
 	pairingtypes "github.com/lavanet/lava/v5/x/pairing/types"
 	spectypes "github.com/lavanet/lava/v5/x/spec/types"
+	"github.com/lavanet/lava/v5/zz_verif/simrt"
 	"github.com/rs/zerolog"
 	zerologlog "github.com/rs/zerolog/log"
 )
@@ -312,8 +312,8 @@ type c34World struct {
 	ctx    context.Context
 
 	processing, relayTimeout, maxSendLat time.Duration
-	parseFails                            bool
-	permanentErr                          error
+	parseFails                           bool
+	permanentErr                         error
 
 	// machine-side knowledge
 	successReported       bool
